@@ -4,6 +4,7 @@ import RreModel.C20.Spec
 Driver for C20.
   case := `<B> <maxCk> <ttl> <op,op,...>`   B ∈ F|M ; ttl ∈ N|<ms> ;
           op ∈ P<k>.<v> | T<k>.<v>.<ttl> | U<k>.<v> | D<k> | X | G | C | R<i> | A<ms> | K (crash analysis, last)
+          value indices 20 … 29 (`Model.lossyVal`): values whose JSON text does not read back (NaN, ±inf, too deep)
           B = Q (real kill): exactly one kill op  Y<p> (checkpoint killed at its numbered crash point p)
           | V<i>.<p> (restore of id #i killed at point p); the ops before it run in a child process that is really
           killed there, the ops after it on a NEW store opened on the directory the dead child left (`Model.reopen`)
@@ -367,6 +368,7 @@ def oracleReal (cs : Case) (o : String) : String :=
                 "kill_at_" ++ label]
               ++ (if isCk && extra.any (fun p => p.restored.isSome) then ["interrupted_complete"] else [])
               ++ (if isCk && k.dead && extra.any (fun p => p.restored.isNone) then ["interrupted_error"] else [])
+              ++ (if isCk && !snapOk r.prev.view then ["interrupted_holds_unreadable_value"] else [])
               ++ (if !r.taken.isEmpty then ["earlier_checkpoints_probed"] else [])
               ++ (if r.taken.any (fun t => (findProbe k.probes t.1).any (·.restored.isNone) && r.prev.metas.any (·.1 == t.1))
                   then ["retention_victim_gone"] else [])
@@ -418,7 +420,22 @@ def oracleLine (line : String) : String :=
             match p.1, p.2.1.res with
             | .restore i, .ok => p.2.1.view != p.2.2.view && (p.2.2.metas.getLast?.map (·.1)) == some i
             | _, _ => false
+          -- values at the edges of what JSON carries (table indices ≥ 10), and the ones whose JSON text does not read back
+          let opVal := fun (op : COp) => match op with
+            | .put _ v | .putTtl _ v _ | .update _ v | .event _ v => some v
+            | _ => none
+          let edgeVal := cs.ops.any fun op => match opVal op with | some v => v ≥ 10 && !lossyVal v | none => false
+          let lossyCk := r.taken.any fun t => !snapOk t.2
+          -- a still-listed checkpoint that captured such a value next to OTHER keys was restored: an error, nothing loaded
+          let lossyRestoreErr := (oops.zip (os.zip (emptyObs :: os))).any fun (p : OOp × Obs × Obs) =>
+            match p.1, p.2.1.res with
+            | .restore i, .err _ => p.2.2.metas.any (·.1 == i) &&
+                (match lookupS r.taken i with | some v => !snapOk v && v.length ≥ 2 | none => false)
+            | _, _ => false
           let tags := (if cs.file then ["file"] else ["memory"])
+            ++ (if edgeVal then ["edge_values"] else [])
+            ++ (if lossyCk then ["unreadable_value_checkpointed"] else [])
+            ++ (if lossyRestoreErr then ["unreadable_checkpoint_restore_is_error"] else [])
             ++ (if nCk ≥ 2 then ["ckpts_ge2"] else if nCk = 1 then ["ckpts_1"] else ["ckpts_0"])
             ++ (if restoresOk > 0 then ["restore_ok"] else [])
             ++ (if restoresErr > 0 then ["restore_err"] else [])
